@@ -5,6 +5,7 @@ V = os.path.dirname(os.path.dirname(os.path.abspath(__file__)))
 sys.path.insert(0, V)
 props = [json.loads(l) for l in open(os.path.join(V, "properties.jsonl"))]
 NA_REASON = json.load(open(os.path.join(V, "tools/not_claimed.json")))
+ALLOW = set(json.load(open(os.path.join(V, "tools/claimed.json"))))  # the coordinator's allowlist
 checks, na, engines = [], [], {}
 for p in props:
     pid = p["id"]
@@ -13,7 +14,7 @@ for p in props:
     if os.path.exists(path):
         mod = importlib.import_module("checks." + pid.lower())
         m = getattr(mod, "MANIFEST", None)
-    if not m or not m.get("claimed", False):
+    if not m or not m.get("claimed", False) or pid not in ALLOW:
         na.append({"property_id": pid, "reason": NA_REASON.get(pid, "check not built yet — work in progress, see DESIGN.md §6")})
         continue
     spec = mod.SPEC
